@@ -47,7 +47,7 @@ def World.Mut (w : World) (x : Id) : Prop := (heapGet w.ctx.heap x).isSome = tru
 def WOp.target : WOp → Option Nat
   | .new _ => none
   | .get i _ | .set i _ _ | .mutate i _ _ | .mutateInner i _ _ | .regDyn i _ _ | .regObs i _ _ | .regAny i _
-  | .addTrait i _ _ => some i
+  | .addTrait i _ _ | .del i _ | .query i => some i
 
 /-! ### What one operation can change -/
 
@@ -347,6 +347,13 @@ theorem step_frame (E : Env) (w : World) (op : WOp) (i : Nat) (ht : op.target = 
       injection h2 with h2
       subst h2
       exact ⟨_, setInst_get_self w j o _ _ hi, rfl, rfl⟩
+  | del j n =>
+    simp only [WOp.target, Option.some.injEq] at ht; subst ht
+    exact onAttr_frame w j n _ (fun t s => step_sframe E t s .del)
+  | query j =>
+    simp only [WOp.target, Option.some.injEq] at ht; subst ht
+    simp only [World.step]
+    cases w.insts[j]? <;> exact WFrame.refl j w
   | addTrait j n t =>
     simp only [WOp.target, Option.some.injEq] at ht; subst ht
     simp only [World.step, World.addTrait]
